@@ -54,7 +54,7 @@ def violations_of(prop, root):
         mod.run(P, res, 'quick')
         res.raise_deferred()
     except AnalysisError:
-        if not any(o.status == 'violated' for o in res.obs):
+        if not report.unlisted(res.obs):
             raise
     return {(o.rule, o.site, o.construct, o.detail) for o in res.obs if o.status == 'violated'}
 
